@@ -231,35 +231,64 @@ def run(ctx: Context) -> None:
                 detail = f"window [{lo.show()}, {hi.show()}) with pad {width.show()}"
         ctx.check('R07.3', ok_win, "the window covers [i - size, i + size] of the original on every axis", bm, slices[0] if slices else bm.node,
                   construct=f"blur window: {detail}")
-        # the slices are built per axis of the cell's own multi index, applied to the padded array, reduced with any()
+        # the slices are built per axis of the cell's own multi index, applied to the padded array, reduced with any().
+        # The per-cell generator may draw its index from a second generator over the iterator (today's form) or read the
+        # iterator's multi_index directly: both are brought to the fused form before they are judged.
+        def fused(gen):
+            """(element, name the cell's index goes by, what that name stands for, iterable, filters) of a one-clause generator,
+            with an intermediate index generator looked through"""
+            if not isinstance(gen, ast.GeneratorExp) or len(gen.generators) != 1:
+                return None
+            g = gen.generators[0]
+            src = bflow.resolve(g.iter)
+            if isinstance(src, ast.GeneratorExp) and len(src.generators) == 1 and isinstance(g.target, ast.Name) and not g.ifs:
+                return gen.elt, g.target.id, norm_text(src.elt), src.generators[0].iter, list(src.generators[0].ifs)
+            return gen.elt, None, None, g.iter, list(g.ifs)
+
+        fr = [c for c in calls_in(bm) if callee(ctx, bm, c) == 'numpy.fromiter']
+        cellgen = fused(bflow.resolve(fr[0].args[0])) if len(fr) == 1 and fr[0].args else None
+        it = [n for n in walk_no_nested(bm.node) if isinstance(n, ast.Assign) and isinstance(n.value, ast.Call) and callee(ctx, bm, n.value) == 'numpy.nditer']
+        itname = norm_text(it[0].targets[0]) if len(it) == 1 else None
         ok = False
-        for n in ast.walk(bm.node):
-            if isinstance(n, ast.GeneratorExp) and isinstance(n.elt, ast.BoolOp) and isinstance(n.elt.op, ast.Or):
-                left, right = n.elt.values[0], n.elt.values[-1]
-                ok = (norm_text(left) == f"{arr_p}[index]" and isinstance(right, ast.Call) and callee(ctx, bm, right) == 'numpy.any'
-                      and isinstance(right.args[0], ast.Subscript) and bflow.resolve(right.args[0].value) is pd
-                      and norm_text(right.args[0].slice).startswith('tuple((slice(') and norm_text(right.args[0].slice).endswith('for i in index))')
-                      and norm_text(n.generators[0].iter) == 'indexes' and not n.generators[0].ifs)
+        if cellgen is not None and itname is not None:
+            elt, alias, meaning, iterable, ifs = cellgen
+            cell = f"{itname}.multi_index"
+            if alias is not None and meaning == cell:
+                cell = alias
+            if isinstance(elt, ast.BoolOp) and isinstance(elt.op, ast.Or) and len(elt.values) == 2:
+                left, right = elt.values
+                if isinstance(right, ast.Call) and callee(ctx, bm, right) == 'numpy.any' and len(right.args) == 1 and isinstance(right.args[0], ast.Subscript):
+                    window = right.args[0]
+                    sl = window.slice
+                    per_axis = (isinstance(sl, ast.Call) and dotted(sl.func) == 'tuple' and len(sl.args) == 1 and isinstance(sl.args[0], ast.GeneratorExp)
+                                and len(sl.args[0].generators) == 1 and not sl.args[0].generators[0].ifs
+                                and norm_text(sl.args[0].generators[0].iter) == cell and norm_text(sl.args[0].generators[0].target) == 'i'
+                                and isinstance(sl.args[0].elt, ast.Call) and dotted(sl.args[0].elt.func) == 'slice')
+                    ok = (norm_text(left) == f"{arr_p}[{cell}]" and bflow.resolve(window.value) is pd and per_axis
+                          and norm_text(iterable) == itname and not ifs)
         ctx.check('R07.3', ok, "a cell is marked iff it was marked or any cell of its window is (window built from the cell's own index on every axis)", bm, bm.node,
                   construct='values = (arr[index] or numpy.any(padded[window(index)]) for index in indexes)')
-        idx = [n for n in ast.walk(bm.node) if isinstance(n, ast.GeneratorExp) and norm_text(n.elt) == 'arr_iter.multi_index']
-        it = [n for n in walk_no_nested(bm.node) if isinstance(n, ast.Assign) and norm_text(n.targets[0]) == 'arr_iter']
-        itv = it[0].value if it else None
+        itv = it[0].value if len(it) == 1 else None
         order = kwarg(itv, 'order') if isinstance(itv, ast.Call) else None
-        # nditer follows the memory layout unless told otherwise: the visit order must be pinned to C, the order of the final reshape
-        ok = (len(idx) == 1 and isinstance(itv, ast.Call) and callee(ctx, bm, itv) == 'numpy.nditer' and len(itv.args) >= 2
+        # nditer follows the memory layout unless told otherwise: the visit order must be pinned to C, the order of the final reshape;
+        # and the iterator is consumed by the per-cell generator alone (a second consumer would skip cells)
+        uses = [n for n in ast.walk(bm.node) if isinstance(n, ast.Name) and n.id == itname and isinstance(n.ctx, ast.Load)] if itname else []
+        iterated = [n for n in ast.walk(bm.node) if isinstance(n, ast.comprehension) and norm_text(n.iter) == itname] if itname else []
+        iterated += [n for n in ast.walk(bm.node) if isinstance(n, ast.For) and norm_text(n.iter) == itname] if itname else []
+        other = [u for u in uses if not any(u is c.iter for c in iterated)
+                 and not any(isinstance(a, ast.Attribute) and a.value is u and a.attr == 'multi_index' for a in ast.walk(bm.node))]
+        ok = (isinstance(itv, ast.Call) and len(itv.args) >= 2 and len(iterated) == 1 and not other
               and norm_text(itv.args[0]) == arr_p and norm_text(itv.args[1]) == "['multi_index']"
               and order is not None and const_value(order, None) == 'C')
         ctx.check('R07.3', ok, "cells are visited once each in the array's C iteration order", bm, it[0] if it else bm.node)
-        fr = [c for c in calls_in(bm) if callee(ctx, bm, c) == 'numpy.fromiter']
         ok = False
         if len(fr) == 1:
             outer = None
             for c in calls_in(bm):
-                if isinstance(c.func, ast.Attribute) and c.func.attr == 'reshape' and c.func.value is fr[0]:
+                if isinstance(c.func, ast.Attribute) and c.func.attr == 'reshape' and bflow.resolve(c.func.value) is fr[0]:
                     outer = c
-            ok = (outer is not None and norm_text(outer.args[0]) == f"{arr_p}.shape" and kwarg(outer, 'order') is None
-                  and norm_text(kwarg(fr[0], 'count') or ast.Constant(None)) == f"{arr_p}.size" and norm_text(fr[0].args[0]) == 'values')
+            ok = (outer is not None and len(outer.args) == 1 and norm_text(outer.args[0]) == f"{arr_p}.shape" and kwarg(outer, 'order') is None
+                  and norm_text(kwarg(fr[0], 'count') or ast.Constant(None)) == f"{arr_p}.size" and cellgen is not None)
         ctx.check('R07.3', ok, "the per-cell results are reshaped to the input shape in that same order", bm, fr[0] if fr else bm.node)
         rets = bm.returns()
         ok = bool(rets) and bool(fr) and all(bflow.reaches(r.value, lambda n: n is fr[0]) for r in rets)
@@ -335,26 +364,66 @@ def run(ctx: Context) -> None:
         ctx.check('R07.6', ok and ok2, "one ring: the original faces plus every face sharing a node with them, in ascending face order", bf, gens[0] if gens else bf.node)
         mf = ctx.func(f"{UGRID}.mask_from_face_indexes")
         mflow = ctx.flow(mf)
+        # the old-to-new tables: through a helper `h(size, indexes)` (nested or module level), or written out (a helper that the
+        # normaliser inlined): a fully masked table of `size` entries in which `table[indexes] = arange(len(indexes))`
+        sites = []          # (size expression, index expression, node standing for the table, site for reports)
         helper = p.functions.get(f"{mf.qualname}.<locals>.new_element_indexes")
-        ctx.need('R07.6', helper is not None, "mask_from_face_indexes numbers elements through one helper", mf)
-        htxt = [norm_text(s) for s in helper.body]
-        ok = ('new_indexes[indexes] = numpy.arange(len(indexes))' in htxt and any('numpy.ma.masked_array(new_indexes, mask=True)' in t for t in htxt)
-              and any(t.startswith('new_indexes = numpy.full((size,)') for t in htxt) and htxt[-1] == 'return new_indexes')
-        ctx.check('R07.6', ok, "new_element_indexes: a fully masked table of the element count in which the kept positions get 0..n-1 in the order given", helper, helper.node)
-        hcalls = [c for c in calls_in(mf, nested=False) if isinstance(c.func, ast.Name) and c.func.id == 'new_element_indexes']
+        hname = 'new_element_indexes'
+        if helper is None:
+            for n in calls_in(mf, nested=False):
+                if isinstance(n.func, ast.Name) and len(n.args) >= 2 and p.functions.get(f"{mf.module.name}.{n.func.id}") is not None \
+                        and 'numpy.arange(len(' in ast.unparse(p.functions[f"{mf.module.name}.{n.func.id}"].node):
+                    helper, hname = p.functions[f"{mf.module.name}.{n.func.id}"], n.func.id
+        if helper is not None:
+            htxt = [norm_text(s) for s in helper.body]
+            hp = helper.params
+            ok = (len(hp) >= 2 and any(t.replace(' ', '') == f"new_indexes[{hp[1]}]=numpy.arange(len({hp[1]}))".replace(' ', '') or ('numpy.arange(len(' + hp[1] + '))') in t for t in htxt)
+                  and any('numpy.ma.masked_array(' in t and 'mask=True' in t for t in htxt)
+                  and any('numpy.full((' + hp[0] + ',)' in t for t in htxt) and htxt[-1].startswith('return '))
+            ctx.check('R07.6', ok, "the numbering helper: a fully masked table of the element count in which the kept positions get 0..n-1 in the order given", helper, helper.node)
+            for c in calls_in(mf, nested=False):
+                if isinstance(c.func, ast.Name) and c.func.id == hname and len(c.args) >= 2:
+                    sites.append((c.args[0], c.args[1], c, c))
+        else:
+            mm_ = Matcher(ctx, mf)
+            for st_ in mm_.stmts('$t[$$idx] = numpy.arange(len($$idx2))'):
+                tgt = st_.targets[0]
+                tname = tgt.value.id if isinstance(tgt.value, ast.Name) else None
+                idx = tgt.slice
+                same_idx = norm_text(idx) == norm_text(st_.value.args[0].args[0])
+                defs_ = [n for n in walk_no_nested(mf.node) if isinstance(n, ast.Assign) and isinstance(n.targets[0], ast.Name) and n.targets[0].id == tname and n.lineno < st_.lineno]
+                full = [n for n in defs_ if isinstance(n.value, ast.Call) and callee(ctx, mf, n.value) == 'numpy.full' and n.value.args]
+                masked = [n for n in defs_ if isinstance(n.value, ast.Call) and callee(ctx, mf, n.value) == 'numpy.ma.masked_array' and norm_text(kwarg(n.value, 'mask') or ast.Constant(None)) == 'True'
+                          and n.value.args and norm_text(n.value.args[0]) == tname]
+                shape = mflow.resolve(full[0].value.args[0]) if full else None
+                size = shape.elts[0] if isinstance(shape, ast.Tuple) and len(shape.elts) == 1 else None
+                ok = tname is not None and same_idx and len(full) == 1 and len(masked) == 1 and full[0].lineno < masked[0].lineno and size is not None
+                ctx.check('R07.6', ok, "a numbering table is a fully masked table of the element count in which the kept positions get 0..n-1 in the order given", mf, st_,
+                          construct=f"{norm_text(st_)[:100]}")
+                if ok:
+                    sites.append((size, idx, ast.Name(id=tname, ctx=ast.Load()), st_))
+        ctx.need('R07.6', bool(sites), "mask_from_face_indexes numbers the kept elements (through one helper, or written out)", mf)
+        hcalls = sites
         want_src = {'face': None, 'edge': 'topology.face_edge_array', 'node': 'topology.face_node_array'}
         seen = {}
-        for c in hcalls:
-            size = norm_text(c.args[0])
+        for size_e, idx, table_node, c in hcalls:
+            size = norm_text(size_e)
             kind = size.replace('topology.', '').replace('_count', '')
-            seen[kind] = c
-            idx = c.args[1]
+            seen[kind] = table_node
+            seen_site = getattr(seen, '_sites', None)
             inner = sorted_ascending(ctx, mf, idx)
             ok = inner is not None and size == f"topology.{kind}_count"
-            # sort(unique(x)) - peel both
+            # sort(unique(x)) - peel both, remembering whether duplicates were removed on the way
             core = inner
+            chain = [mflow.resolve(idx)]
             while core is not None and sorted_ascending(ctx, mf, core) is not None:
+                chain.append(mflow.resolve(core))
                 core = sorted_ascending(ctx, mf, core)
+            dedup = any(isinstance(x, ast.Call) and ((callee(ctx, mf, x) or '') == 'numpy.unique' or (isinstance(x.func, ast.Name) and x.func.id in ('set', 'frozenset'))) for x in chain) \
+                or any(isinstance(x, ast.Call) and isinstance(x.func, ast.Name) and x.func.id == 'sorted' and x.args and isinstance(mflow.resolve(x.args[0]), ast.Call)
+                       and isinstance(mflow.resolve(x.args[0]).func, ast.Name) and mflow.resolve(x.args[0]).func.id in ('set', 'frozenset') for x in chain)
+            ctx.check('R07.6', dedup, f"the {kind} indexes are made duplicate free before they are numbered (a {kind} listed twice would take two numbers: gaps, and a numbering that does not start at 0)", mf, c,
+                      construct=f"{kind}: {norm_text(mflow.resolve(idx))[:90]}")
             ctx.check('R07.6', ok, f"{kind}s are numbered over a sorted, duplicate free index array, into a table of {kind}_count entries", mf, c,
                       construct=f"{kind}: new_element_indexes({size}, {norm_text(mflow.resolve(idx))[:70]})")
             if kind in ('edge', 'node') and core is not None:
@@ -369,16 +438,18 @@ def run(ctx: Context) -> None:
                 ctx.check('R07.6', mflow.canon(core) == ('param', mf.params[0]) or norm_text(mflow.resolve(core)) == mf.params[0],
                           "kept faces are the face indexes given", mf, c, construct=f"face source: {norm_text(mflow.resolve(core))}")
         ctx.check('R07.6', set(seen) == {'face', 'edge', 'node'}, "faces, edges and nodes each get an old-to-new table", mf, mf.node, construct=f"tables for {sorted(seen)}")
+        site_of = {norm_text(sz).replace('topology.', '').replace('_count', ''): site for sz, _, _, site in hcalls}
         if 'edge' in seen:
-            g = [(norm_text(st.test), inb) for st, inb in enclosing_ifs(mf, seen['edge'])]
-            ctx.check('R07.6', g == [('topology.has_edge_dimension', True)], "the edge table exists exactly when the mesh has an edge dimension", mf, seen['edge'], construct=f"edge table guard {g}")
+            g = [(norm_text(st.test), inb) for st, inb in enclosing_ifs(mf, site_of['edge'])]
+            ctx.check('R07.6', g == [('topology.has_edge_dimension', True)], "the edge table exists exactly when the mesh has an edge dimension", mf, site_of['edge'], construct=f"edge table guard {g}")
         names = {}
         for n in walk_no_nested(mf.node):
             if isinstance(n, ast.Assign) and isinstance(n.targets[0], ast.Subscript) and norm_text(n.targets[0].value) == 'data_vars' and isinstance(n.value, ast.Call):
                 d = kwarg(n.value, 'data')
                 dd = kwarg(n.value, 'dims')
                 names[const_value(n.targets[0].slice, None)] = (d, norm_text(dd) if dd is not None else None)
-        ok = all(k in names and names[k][0] is seen.get(kind) and names[k][1] == f"['old_{kind}_index']" for kind, k in
+        ok = all(k in names and names[k][0] is not None and seen.get(kind) is not None
+                 and (names[k][0] is seen.get(kind) or norm_text(names[k][0]) == norm_text(seen.get(kind))) and names[k][1] == f"['old_{kind}_index']" for kind, k in
                  (('face', 'new_face_index'), ('edge', 'new_edge_index'), ('node', 'new_node_index')))
         ctx.check('R07.6', ok, "each table is stored as new_<kind>_index on dimension old_<kind>_index", mf, mf.node, construct=f"mask variables {sorted(str(k) for k in names)}")
 
